@@ -1,4 +1,6 @@
 SPECIFICATION Spec
 INVARIANT GatingOK
 INVARIANT WordsOK
+INVARIANT SysFormsOK
+INVARIANT SysIndepOK
 CHECK_DEADLOCK FALSE
